@@ -20,10 +20,14 @@ def worker(args):
     k = 0
     with open(out_path, "w") as f:
         while k < n:
-            case = c02.gen_case(alpha, rng, maxp=3)
+            case = c02.gen_history_case(alpha, rng) if rng.random() < .2 else c02.gen_case(alpha, rng, maxp=3, symp=.4)
             # the case, a sibling (one shape changed, other array objects reused), and the case again
-            for c in [case, c02.sibling(case, rng), json.loads(json.dumps(case))]:
-                c["variants"] = calls.run_jax_variants(c, seed=seed + k)
+            prev = None
+            fam = c02.sibling_family(case, rng)
+            case.pop("_vary", None)
+            for c in [case] + fam + [json.loads(json.dumps(case))]:
+                c["variants"] = calls.run_jax_variants(c, seed=seed + k, prime=prev)
+                prev = case if c is not case else None
                 c["id"] = id0 + k
                 k += 1
                 f.write(json.dumps(c, separators=(",", ":")) + "\n")
